@@ -363,7 +363,9 @@ def run(ctx: Ctx):
     build = [n for n in grg.nodes if n.ast is not None and n.kind == "stmt" and any(
         isinstance(c, ast.Call) and norm(c.func) == "self.generate_intermediate_format" for c in ast.walk(n.ast))]
     writers = [n for n in grg.nodes if n.ast is not None and n.kind == "stmt" and any(
-        isinstance(c, ast.Call) and norm(c.func).startswith("self._generate_") for c in ast.walk(n.ast))]
+        isinstance(c, ast.Call) and (norm(c.func).startswith("self._generate_") or
+                                     any(t.name.startswith("_generate_") for t in ctx.cg.resolve_call(rg, c)))
+        for c in ast.walk(n.ast))]
     if not build or not writers:
         raise AnchorMissing("Report.generate: table build / format writers not found")
     dom = grg.dominators()
